@@ -42,6 +42,42 @@ NEEDS = {
  "C19-m2": ("replication/changesets.go + search.go: changeset search uses the raw current sequence (off by one)", "ChangesetStateAt with a query later than the third-newest state"),
  "C20-m1": ("osmapi/datasource.go: catch-all status check changed to >= 300", "a 2xx status other than 200 (201, 202, 203, 206)"),
  "C20-m2": ("osmapi/options.go At(): time formatted with RFC3339 in its own zone", "At(t) with a non-UTC time value"),
+ "C01-r2m1": ("osmpbf/decode_data.go: timestamp conversion through a lazily cached per-decoder date unit that the per-block reset list misses", "two blocks with different effective date_granularity on the same decoder (block k and k+procs)"),
+ "C01-r2m2": ("osmpbf/decode_data.go extractDenseNodes: block offsets folded into the delta accumulators with integer division", "a lat/lon offset that is not a multiple of the granularity"),
+ "C01-r2m3": ("osmpbf/decode.go: decoder goroutines drop empty results", "procs >= 2 and a valid data block without elements before the end"),
+ "C02-r2m1": ("osmpbf/decode.go: decoder goroutine skips sending empty results", "procs >= 2 and a fully skipped/filtered block with data after it"),
+ "C02-r2m2": ("decode_data.go + decode.go: object queue only reallocated if non-empty, and truncated after the result is built (two sites)", "more blocks than decoders and a consumer slower than the decoders (data race, later blocks overwrite delivered ones)"),
+ "C02-r2m3": ("osmpbf/decode.go readBlobHeaderSize: single Read instead of io.ReadFull", "an input reader whose piece boundary falls inside a 4-byte size prefix"),
+ "C03-r2m1": ("osm.go: (*OSM).UnmarshalXML clears root attributes and Bounds before decoding into the receiver", "a repeated osmChange action where an earlier block has bounds and a later one of the same action has none"),
+ "C03-r2m2": ("osmxml/scanner.go: unknown elements skipped whole; old/new missing from the wrapper set", "scanning an augmented diff with modify/delete actions"),
+ "C03-r2m3": ("tag.go: (*Tag).UnmarshalXML takes Attr[0]/Attr[1] positionally when there are exactly two", "a tag written as v=... k=..."),
+ "C05-r2m1": ("osm.go UnmarshalJSON: elements routed through OSM.Append (packed id type bits)", "an element id that is negative or >= 2^40"),
+ "C05-r2m2": ("tag.go Tags.MarshalJSON: hand-written with strconv.AppendQuote", "tag text with control bytes, DEL, invalid UTF-8 or unprintable runes above U+FFFF"),
+ "C05-r2m3": ("osm.go Objects(): early return for zero elements before bounds are counted vs MarshalJSON's elements[1:]", "an OSM holding only Bounds"),
+ "C06-r2m1": ("osmpbf/decode.go readBlobHeaderSize: size prefix converted with int32()", "a size prefix >= 2^31 (negative after conversion, slice bounds panic)"),
+ "C06-r2m2": ("osmpbf/decode_data.go: cached string table no longer reset", "a block without string table decoded by a goroutine that decoded another block before (block index >= procs)"),
+ "C06-r2m3": ("decode_data.go Decode returns the partial queue with the error + decode.go Next delivers objects before a stored block error (two sites)", "damage surfacing as an ordinary error in the second or later group of a block"),
+ "C07-r2m1": ("osmpbf/decode.go: decoder returns when its send loses to ctx.Done + reader's send loses its ctx select (two sites)", "Close/cancel mid-file on a file with more blocks than the pipeline buffers (Close hangs)"),
+ "C07-r2m2": ("osmpbf/scanner.go Close: early return when not started", "Close before any Header/Scan, then Scan (decoder starts with a live context, reads on, goroutines leak)"),
+ "C07-r2m3": ("osmxml/scanner.go: ctx check hoisted out of the token loop", "cancellation during a running Scan over a long stretch without objects"),
+ "C08-r2m1": ("osmpbf/decode_data.go: scratch relation kept on the decoder across groups, stored on reject (two sites)", "a reject followed by an accept in one relation group plus a later relation group on the same decoder"),
+ "C08-r2m2": ("osmpbf/decode.go: blocks decoding to zero kept objects send nothing", "procs >= 2 and a block emptied by skip flags or filters, count of empty blocks not a multiple of procs"),
+ "C08-r2m3": ("osmpbf/decode_data.go scanWays: rejected way's node buffer re-sliced instead of reallocated", "a rejected way with locations followed by an accepted way without locations that fits the retained capacity"),
+ "C09-r2m1": ("osmpbf/decode.go: round-robin index not advanced after queueing the first block of a headerless stream", "resume at a data block with procs >= 2 and >= 2 blocks remaining"),
+ "C09-r2m2": ("decode.go + decode_data.go: visible flag honoured only if the header lists HistoricalInformation (two sites)", "a resumed scanner (never sees a header) on a history file with visible=false elements"),
+ "C09-r2m3": ("osmpbf/decode.go: restart block queued with dec.bytesRead instead of 0", "a scan resumed and then stopped and resumed again from the offset the resumed scanner reports"),
+ "C11-r2m1": ("annotate/internal/core/types.go FindVisible: offset <= eps became offset < eps", "a child version written in exactly the parent's second by a different changeset (timestamp regime)"),
+ "C11-r2m2": ("types.go + compute.go: FindVisible resumes its scan from the child found for the previous parent version (two sites)", "timestamp regime, >= 2 parent versions in one call, next version within the threshold after the current child, a later same-changeset child version farther away"),
+ "C11-r2m3": ("compute.go mapChildLocs: ChildFilter decision cached per child from its first occurrence", "ChildFilter set, an earlier version already annotated, a new un-annotated version, a child the filter rejects"),
+ "C16-r2m1": ("internal/mputil/join.go Join: forwards shift loop overwrites pending segments", ">= 7 ways of one role with the continuing piece at index >= 2 in the first half of the pending list"),
+ "C16-r2m2": ("osmgeojson/build_polygon.go polygonContains: (yi >= y) != (yj > y)", "hole vertex at exactly the latitude of a vertex of another outer ring east of it, that outer listed after the hole's own"),
+ "C16-r2m3": ("join.go joins annotated segments head-to-tail only + build_polygon.go no longer pre-reverses CW outers / CCW inners (two sites)", "members with orientation annotations whose pieces do not all run the same way round"),
+ "C17-r2m1": ("osmgeojson/convert.go: membership pre-pass skipped entirely under NoRelationMembership", "that option plus an untagged way node that is a relation member"),
+ "C17-r2m2": ("convert.go: route member lines stashed and reused by wayToFeature (two sites) while Join reverses them in place", "a tagged route member whose neighbours run in the opposite direction"),
+ "C17-r2m3": ("convert.go wayToFeature: orb.Ring(ls) instead of toRing(ls)", "an area way whose closing node is missing from the data"),
+ "C19-r2m1": ("replication/search.go: timestamp.After(lower) became !timestamp.Before(lower)", "a query time exactly equal to the lower bound state's timestamp"),
+ "C19-r2m2": ("changesets.go + search.go: the changeset off-by-one correction moved out of the path the search uses (two sites)", "changeset replication, query in the newest interval or after all states"),
+ "C19-r2m3": ("search.go findInRange: loop bound sID >= below and below = split.SeqNum (two edits)", "a run of missing files directly above an existing state with the query inside the hole (endless requests)"),
 }
 matrix = {}
 if os.path.exists('/verif/seeded/matrix.tsv'):
